@@ -1,0 +1,7 @@
+//go:build !verif
+
+package main
+
+func verifEvent(ev string, args ...interface{}) {}
+
+func verifGate(point string) {}
